@@ -304,6 +304,21 @@ def u_reweight_weights(h, pen_name):
     h.ensure('weight-depends-on-|w|-only', h.eq(d[0], d[2]))
     a1, a2 = abs(x1), abs(x2)
     h.ensure('weights-non-increasing-in-|w|', h.implies(h.le(a1, a2), h.ge(d[0], d[1])))
+    if pen_name == 'LogSumPenalty' and h.mode != 'sym':
+        t = abs(float(h.real('t'))) + 0.05
+        e_ = 1e-6 * (1 + t)
+        dphi = (float(pen.value(np.array([t + e_]))) - float(pen.value(np.array([t - e_])))) / (2 * e_)
+        dt = pen.derivative(np.array([t]))
+        h.ensure('weight==derivative-of-the-concave-function', abs(float(al) * float(dt[0]) - dphi) <= 1e-5 * (1 + abs(dphi)))
+    if pen_name == 'LogSumPenalty' and h.mode == 'sym':
+        # no regularisation constant in this one: the weight IS the derivative of phi(t) = log(1 + t/eps) at t = |w| (tangent
+        # majoriser), obtained from the penalty's own value() by a dual number
+        from vf.dual import Dual, tangent
+        t = h.real('t')
+        h.assume(t > 0)
+        dphi = tangent(pen.value(h.arr([Dual(t, 1.0)])))
+        dt = pen.derivative(h.arr([t]))
+        h.ensure('weight==derivative-of-the-concave-function', h.eq(al * dt[0], dphi))
 
 
 def u_reweighted_estimator(h, pen_name):
@@ -473,6 +488,11 @@ def units(tier):
             us.append(Unit('C11/K/Cox-datafit[tm=%s,s=%s,efron=%s]' % (tm, sv, efron), c06.u_cox,
                            dict(tm=tm, s=sv, efron=efron, sparse_pattern=[[1, 0], [0, 1], [1, 1]][:len(tm)]), wall_s=60))
     us.append(Unit('C11/E/GeneralizedLinearEstimator', u_glm_estimator, {}, wall_s=90))
+    # datafits a user can hand to GeneralizedLinearEstimator: the objective the solver minimises on CSC input is the documented
+    # one only if every sparse accessor agrees with the dense one and with the derivative of value() (C06 obligations re-used)
+    for name in ('Huber', 'Poisson'):
+        us.append(Unit('C11/K/GLE-datafit[%s]' % name, c06.u_datafit,
+                       dict(name=name, n=2, p=2, pattern=c06.PATTERNS_32[0][:2]), wall_s=120))
     for weights, p0 in (([1.0, 0.0], 1), ([0.0, 1.0], 1), ([1.0, 2.0], 2)):
         us.append(Unit('C11/D/exact-on-orthogonal-design[weights=%s,p0=%d]' % (weights, p0), u_exact_on_orthogonal_design,
                        dict(weights=weights, p0=p0), wall_s=90, timeout_ms=8000))
